@@ -59,8 +59,17 @@ def materialize_defaults(value: Any) -> None:
         node, config.TaggedValueCls
     ):
       parameters = node.__signature_info__.parameters.values()
+      # Whether a positional-only parameter without a default is unset: later
+      # positional-only parameters then can't be passed either (there is no way
+      # to bind them without binding the earlier one).
+      unset_required_positional = False
       for index, arg in enumerate(parameters):
         if arg.default is arg.empty:
+          if (
+              arg.kind == arg.POSITIONAL_ONLY
+              and index not in node.__arguments__
+          ):
+            unset_required_positional = True
           continue
         if dataclasses.is_dataclass(
             node.__fn_or_cls__
@@ -76,7 +85,7 @@ def materialize_defaults(value: Any) -> None:
           continue
         if arg.kind == arg.POSITIONAL_ONLY:
           # Positional-only arguments are stored (and set) by index.
-          if index not in node.__arguments__:
+          if index not in node.__arguments__ and not unset_required_positional:
             node[index] = arg.default
         elif arg.name not in node.__arguments__:
           setattr(node, arg.name, arg.default)
